@@ -561,6 +561,19 @@ def call_np(it, name, pos, kw):
             r.in_range_of = rows
             ctx.log_ghost("argmax", dict(am=am, src=a_s))
             return r
+        if a.ndim == 2 and axis == 1:
+            a_s = N.snap(a)
+            rows, cols = a_s.shape
+            ctx.raise_unless(T.ge(cols, 1), "ValueError", "attempt to get argmax of an empty sequence")
+            am = T.fresh_fun("argmaxr", z3.IntSort(), z3.IntSort())
+            i, j = T.fresh_int("i"), T.fresh_int("j")
+            ctx.assume(T.ForAll([i], z3.Implies(z3.And(0 <= i, T.lt(i, rows)), z3.And(0 <= am(i), T.lt(am(i), cols))), [am(i)]),
+                       trusted="numpy:argmax(axis=1): a column position of a largest entry of every row")
+            ctx.assume(T.ForAll([i, j], z3.Implies(z3.And(0 <= i, T.lt(i, rows), 0 <= j, T.lt(j, cols)),
+                                                   T.tz(T.as_real(a_s.fn(i, j))) <= T.tz(T.as_real(a_s.fn(i, am(i))))), [a_s.fn(i, j)]))
+            r = Arr((rows,), lambda i_: am(T.tz(i_)), "int")
+            r.in_range_of = cols
+            return r
         raise PathAbort("np.argmax form", ctx.cur_line)
     if name == "linalg.norm":
         return N.np_vector_norm(ctx, _arr(it, pos[0]), kw.get("ord", pos[1] if len(pos) > 1 else None))
